@@ -191,6 +191,19 @@ def implied(guards, pred, hmax=7, lmax=7):
     return True
 
 
+def admitted(guards, lmax=7):
+    """the small states (h, L), 0 <= h <= L, consistent with the guards (None when no guard is understood)"""
+    usable = [g for g in guards if evalv(g[1], 0, 0) is not None and evalv(g[2], 0, 0) is not None]
+    if not usable:
+        return None
+    out = set()
+    for L in range(0, lmax):
+        for h in range(0, L + 1):
+            if all(CMP[op](evalv(a, h, L), evalv(b, h, L)) == truth for op, a, b, truth in usable):
+                out.add((h, L))
+    return out
+
+
 def stack_fns(F, adt):
     prefix = adt + "::"
     return [f for f in F.fns if f.mir and ((f.root or f.short).startswith(prefix) or ((f.root or f.short).startswith("<" + adt)))]
@@ -226,6 +239,7 @@ def rule_b(F):
         if len(fns) < 5:
             raise AnchorMissing("methods of %s" % adt)
         n_stores = 0
+        raises = []
         for f in fns:
             du = DefUse(f)
             fname = (f.root or f.short).rsplit("::", 1)[-1] + ("{closure}" if f.is_closure else "")
@@ -250,6 +264,7 @@ def rule_b(F):
                     key = "C14/B/%s::%s/height-store#%d" % (sname, fname, n)
                     loc = f.loc(st.get("ln"))
                     if val.base == ("h",) and val.off > 0:
+                        raises.append((fname, admitted(guards), loc, f))
                         need = lambda h, L, k=val.off: h + k <= L
                         if implied(guards, need):
                             res.append(ok("C14.B", key, loc, "height += %d is guarded: the taken edge implies room" % val.off, guards=str(guards)))
@@ -319,6 +334,26 @@ def rule_b(F):
                     res.append(undecided("C14.B", key, loc, "unchecked index expression not recognised: %r" % idx))
         if n_stores < 3:
             raise AnchorMissing("stores to %s.%s (found %d)" % (sname, cfgd["height"], n_stores))
+        # one push policy: every site that raises the height admits exactly the states `push` admits ("a write at the
+        # current height pushes": same stack-full behaviour whichever way a value gets on top)
+        ref = [r for r in raises if r[0] == "push"]
+        if not ref:
+            raise AnchorMissing("%s::push raising the height" % sname)
+        for fname, adm, loc, f in raises:
+            if fname == "push":
+                continue
+            key = "C14/B/%s::%s/raises-height-like-push" % (sname, fname)
+            if adm is None or ref[0][1] is None:
+                res.append(undecided("C14.B", key, loc, "guards of the height increment not understood"))
+            elif adm == ref[0][1]:
+                res.append(ok("C14.B", key, loc, "%s raises the height under exactly push's condition" % fname))
+            else:
+                diff = sorted(adm ^ ref[0][1])[:3]
+                res.append(bad("C14.B", key, loc,
+                               "%s::%s raises the height under a different condition than push (e.g. height, capacity = %s: %s accepts, "
+                               "push %s): a write at the current height is not the same as a push, the stack-full behaviour depends on "
+                               "how a value gets on top" % (sname, fname, diff[0], fname if diff[0] in adm else "push rejects; " + fname,
+                                                           "rejects" if diff[0] in adm else "accepts")))
     # capacity == storage.len(): who writes BoundedStack.capacity
     writers = set()
     for f in F.fns:
